@@ -1104,11 +1104,13 @@ class OdeSystem(object):
 
         except KeyboardInterrupt as e:
             self.__int_status = e
+            self.initialise_integrator(preserve_states=True)
             raise e
         except Exception as e:
             new_e = etypes.FailedIntegration("Failed to integrate system")
             new_e.__cause__ = e
             self.__int_status = new_e
+            self.initialise_integrator(preserve_states=True)
             raise new_e
         else:
             if self.__int_status != 2 and not isinstance(self.__int_status,
